@@ -902,6 +902,24 @@ impl AggregateExec {
         }
     }
 
+    /// With a TopK limit (`descending` set) the groups are emitted in the order of
+    /// the priority queue, not in the order derived from a sorted input: the
+    /// cached properties must not keep declaring that ordering.
+    fn cache_for_limit(
+        cache: &Arc<PlanProperties>,
+        limit_options: Option<LimitOptions>,
+    ) -> Arc<PlanProperties> {
+        if limit_options.and_then(|c| c.descending).is_some()
+            && cache.output_ordering().is_some()
+        {
+            let mut eq_properties = cache.eq_properties.clone();
+            eq_properties.clear_orderings();
+            Arc::new(cache.as_ref().clone().with_eq_properties(eq_properties))
+        } else {
+            Arc::clone(cache)
+        }
+    }
+
     /// Clone this exec, overriding only the limit hint.
     pub fn with_new_limit_options(&self, limit_options: Option<LimitOptions>) -> Self {
         Self {
@@ -910,7 +928,7 @@ impl AggregateExec {
             required_input_ordering: self.required_input_ordering.clone(),
             metrics: ExecutionPlanMetricsSet::new(),
             input_order_mode: self.input_order_mode.clone(),
-            cache: Arc::clone(&self.cache),
+            cache: Self::cache_for_limit(&self.cache, limit_options),
             mode: self.mode,
             group_by: Arc::clone(&self.group_by),
             aggr_expr: Arc::clone(&self.aggr_expr),
@@ -1078,6 +1096,7 @@ impl AggregateExec {
 
     /// Set the limit options for this AggExec
     pub fn with_limit_options(mut self, limit_options: Option<LimitOptions>) -> Self {
+        self.cache = Self::cache_for_limit(&self.cache, limit_options);
         self.limit_options = limit_options;
         self
     }
@@ -2110,7 +2129,9 @@ impl ExecutionPlan for AggregateExec {
                     Arc::clone(&self.input_schema),
                     Arc::clone(&self.schema),
                 )?;
-                me.limit_options = self.limit_options;
+                // Re-derived properties must drop the ordering again (see
+                // `cache_for_limit`)
+                me = me.with_limit_options(self.limit_options);
                 me.dynamic_filter.clone_from(&self.dynamic_filter);
                 Ok(Arc::new(me))
             }
